@@ -744,50 +744,60 @@ def matrix_programs_c17():
 # start vector kept "for reuse".
 def interaction_programs_c17(tier="quick"):
     kinds = path_kinds()
-    base = kinds["generic"]
     n = 4
 
-    def G(dt, seed, sym="psd"):
-        return {"k": "ann", "name": "PSD", "of": {"k": "generic", "n": n, "dtype": dt, "seed": seed, "sym": sym}}
+    def G(dt, seed, sym="psd", k="generic"):
+        return {"k": "ann", "name": "PSD", "of": {"k": k, "n": n, "dtype": dt, "seed": seed, "sym": sym}}
 
-    variants = {"f4": G("f4", 21), "c16": G("c16", 20), "c8": G("c8", 24), "other_f8": G("f8", 25),
-                "dense_f4": {"k": "ann", "name": "PSD", "of": {"k": "dense", "n": n, "dtype": "f4", "seed": 26, "sym": "psd"}}}
-    vdt = {"f4": "f4", "c16": "c16", "c8": "c8", "other_f8": "f8", "dense_f4": "f4"}
-    keyed = [(fn, kw) for fn, kw, k in MATRIX_ROUTINES if k][:15]
-    core = [(fn, kw) for fn, kw in keyed if fn in ("hutch", "lanczos", "arnoldi", "power_iteration", "nystrom", "lobpcg", "slq")]
+    bases = {"generic": "f8", "float32": "f4", "complex": "c16"}  # kinds of the routine x kind matrix (single-call references)
+    other = {"f8": ("f4", "c16", "c8"), "f4": ("f8", "c8"), "c16": ("c8", "f8")}
+    keyed = [(fn, kw) for fn, kw, k in MATRIX_ROUTINES if k]
     seen, core1 = set(), []
-    for fn, kw in core:
-        if fn not in seen:
+    for fn, kw in keyed:
+        if fn in ("hutch", "lanczos", "arnoldi", "power_iteration", "nystrom", "lobpcg", "slq") and fn not in seen:
             seen.add(fn)
             core1.append((fn, kw))
     out = []
 
     def args(fn, kw, slot, dt):
         a = dict(kw, key=7)
-        if "b" in a:
-            a["b"] = {"arr": dict(a["b"]["arr"], dtype=dt)}
+        if "b" in a and dt != "f8":
+            a["b"] = {"arr": dict(a["b"]["arr"], dtype="f4" if dt in ("f4", ) else "c16" if dt == "c16" else dt)}
         return dict({"A": {"slot": slot}}, **a)
 
-    def add(r1, v, r2):
-        steps = [{"op": "make", "slot": "V", "recipe": variants[v]},
-                 {"op": "call", "fn": r1[0], "args": args(r1[0], r1[1], "V", vdt[v])},
-                 {"op": "make", "slot": "AK", "recipe": base},
-                 {"op": "call", "fn": r2[0], "args": args(r2[0], r2[1], "AK", "f8")}]
+    def add(r1, vname, vrec, vdt, r2, bname):
+        steps = [{"op": "make", "slot": "V", "recipe": vrec},
+                 {"op": "call", "fn": r1[0], "args": args(r1[0], r1[1], "V", vdt)},
+                 {"op": "make", "slot": "AK", "recipe": kinds[bname]},
+                 {"op": "call", "fn": r2[0], "args": args(r2[0], r2[1], "AK", bases[bname])}]
         for j, s in enumerate(steps):
             s["id"] = j
         nm = lambda r: r[0] + "".join("_%s" % x for x in r[1].values() if isinstance(x, (str, int)))  # noqa: E731
-        out.append({"name": "interaction/%s(%s)->%s" % (nm(r1), v, nm(r2)),
-                    "program": {"property": "C17", "run_seed": 0, "rng0": 3, "config": {"matrix": ["interaction", nm(r1), v, nm(r2)]},
+        out.append({"name": "interaction/%s(%s)->%s(%s)" % (nm(r1), vname, nm(r2), bname),
+                    "program": {"property": "C17", "run_seed": 0, "rng0": 3,
+                                "config": {"matrix": ["interaction", nm(r1), vname, nm(r2), bname]},
                                 "mode": "explicit", "steps": steps}})
 
-    for r in keyed:
-        for v in variants:
-            add(r, v, r)
+    for bname, bdt in bases.items():
+        variants = {dt: (G(dt, 30 + i), dt) for i, dt in enumerate(other[bdt])}
+        # same precision as the base: other entries, another class, and degenerate matrices (rank-deficient, zero), on which
+        # a routine takes its retry / fallback paths (or is refused)
+        variants.update({"other": (G(bdt, 40), bdt), "dense": (G(bdt, 41, k="dense"), bdt),
+                         "singular": (G(bdt, 42, "psd_singular"), bdt), "zero": (G(bdt, 43, "zero"), bdt)})
+        # (whether a rank-deficient matrix makes a factorisation fail at the first attempt is a matter of round-off: several)
+        variants.update({"singular%d" % i: (G(bdt, 44 + i, "psd_singular", k="dense"), bdt) for i in range(1, 5)})
+        variants["rank1"] = (G(bdt, 49, "psd_rank1"), bdt)
+        if tier == "quick" and bname != "generic":
+            variants = {k: v for k, v in variants.items() if k.startswith(("singular", "zero", "rank1")) or k == other[bdt][0]}
+        for r in keyed:
+            for vname, (vrec, vdt) in variants.items():
+                add(r, vname, vrec, vdt, r, bname)
     for r1 in core1:
         for r2 in core1:
             if r1 is not r2:
-                for v in (("f4", ) if tier == "quick" else ("f4", "c16", "other_f8")):
-                    add(r1, v, r2)
+                for vname in (("f4", ) if tier == "quick" else ("f4", "c16", "other")):
+                    vrec, vdt = (G("f4", 30), "f4") if vname == "f4" else (G("c16", 31), "c16") if vname == "c16" else (G("f8", 40), "f8")
+                    add(r1, vname, vrec, vdt, r2, "generic")
     return out
 
 
